@@ -195,6 +195,7 @@ package storage
 //
 // removeSeg: removes exactly the entry with the given id (the first one), keeps the order of the others
 //@ func segmentController.removeSeg
+//@   property C14 C07
 //@   mode int
 //@   timeout 60
 //@   requires sc != nil
@@ -203,7 +204,11 @@ package storage
 //@   ensures  len(sc.lst) == old(len(sc.lst)) || len(sc.lst) == old(len(sc.lst)) - 1
 //@   ensures  inplace: sameobj(sc.lst, old(sc.lst)) && off(sc.lst) == off(old(sc.lst)) && cap(sc.lst) == cap(old(sc.lst))
 //@   ensures  nonnil: forall k :: 0 <= k && k < len(sc.lst) ==> sc.lst[k] != nil
+//@   ensures  absent-id-removes-nothing: (forall j :: 0 <= j && j < old(len(sc.lst)) ==> old(sc.lst[j]).id != segID) ==> len(sc.lst) == old(len(sc.lst)) && (forall j :: 0 <= j && j < len(sc.lst) ==> sc.lst[j] == old(sc.lst[j]))
+//@   ensures  at-most-one-gap: forall j :: 0 <= j && j < len(sc.lst) ==> sc.lst[j] == old(sc.lst[j]) || sc.lst[j] == old(sc.lst[j+1])
+//@   ensures  the-gap-is-that-id: forall j :: 0 <= j && j < len(sc.lst) && sc.lst[j] != old(sc.lst[j]) ==> (exists p :: 0 <= p && p <= j && old(sc.lst[p]).id == segID)
 //@   loop 0 invariant samehdr(sc.lst, old(sc.lst)) && (forall k :: 0 <= k && k < len(sc.lst) ==> sc.lst[k] != nil)
+//@   loop 0 invariant untouched-so-far: (forall j :: 0 <= j && j < len(sc.lst) ==> sc.lst[j] == old(sc.lst[j])) && (forall j :: 0 <= j && j < range_i ==> sc.lst[j].id != segID)
 //
 //@ section C07
 // forced disk-pressure cleanup: at most the single oldest segment, never the last one
